@@ -95,17 +95,17 @@ def gap_of(ri, ji):
 
 
 @lemma(args={"ri": "list[tuple[int,int]]", "ji": "list[tuple[int,int]]", "ur": "list[tuple[int,int]]", "uj": "list[tuple[int,int]]",
-             "old": "dict[int,list[int]]", "new": "dict[int,list[int]]", "M": "dict[int,int]",
+             "pos": "list[int]", "old": "dict[int,list[int]]", "new": "dict[int,list[int]]", "M": "dict[int,int]",
              "pref": "dict[int,dict[int,real]]", "gap": "dict[tuple[int,int],real]"})
-def blocking_translation(ri, ji, ur, uj, old, new, M, pref, gap):
+def blocking_translation(ri, ji, ur, uj, pos, old, new, M, pref, gap):
     """`gap` is the table of signed duration differences (classify.disambiguate_matching's duration_differences).
     If the candidate lists are sorted by duration gap (best last), preferences are -|start offset|, the matching M
     is stable in find_stable_matching's sense and (ur, uj) is M read back, then no input pair (ri[k], ji[k]) blocks the
     output in the property's sense."""
-    requires(len(ri) == len(ji) and len(ur) == len(uj))
-    # every candidate pair is on its storm's list; its gap is tabulated; its rise ranks its storm
-    requires(forall(0, len(ri), lambda k: ri[k][0] in old and exists(0, len(old[ri[k][0]]), lambda p:
-                                                                 old[ri[k][0]][p] == ji[k][0])))
+    requires(len(ri) == len(ji) and len(pos) == len(ri) and len(ur) == len(uj))
+    # every candidate pair sits at pos[k] on its storm's list; its gap is tabulated; its rise ranks its storm
+    requires(forall(0, len(ri), lambda k: ri[k][0] in old and 0 <= pos[k] and pos[k] < len(old[ri[k][0]])
+                    and old[ri[k][0]][pos[k]] == ji[k][0]))
     requires(forall(0, len(ri), lambda k: (ri[k][0], ji[k][0]) in gap and abs(gap[(ri[k][0], ji[k][0])]) == gap_of(ri[k], ji[k])))
     requires(forall(0, len(ri), lambda k: ji[k][0] in pref and ri[k][0] in pref[ji[k][0]]
                     and pref[ji[k][0]][ri[k][0]] == -abs(ji[k][0] - ri[k][0])))
